@@ -514,7 +514,22 @@ type mrec struct {
 // A second call on the same thread is where state that survives a call (a reused timer, a pooled
 // buffer) would show. Oracle: value conservation over the whole execution.
 func multiScenario(progs [][]string, capN, prefill, bound int) schk.Scenario {
+	return multiScenarioZ(progs, capN, prefill, bound, false)
+}
+
+// multiScenarioZ; zero: the first call of thread 0 sends the ZERO value of the element type (a value like
+// any other: a receiver must report (0,true) for it, a sender true).
+func multiScenarioZ(progs [][]string, capN, prefill, bound int, zero bool) schk.Scenario {
 	name := fmt.Sprintf("multi/%v/cap=%d/prefill=%d", progs, capN, prefill)
+	if zero {
+		name += "/thread 0 sends the zero value"
+	}
+	valOf := func(t, j int) int {
+		if zero && t == 0 && j == 0 {
+			return 0
+		}
+		return 40 + 10*t + j
+	}
 	timedOf := func(c string) bool { return c[2] == '+' }
 	return schk.Scenario{
 		Name: name, Bound: bound, RaceBound: -2, ExpectDeadlock: true,
@@ -553,7 +568,7 @@ func multiScenario(progs [][]string, capN, prefill, bound int) schk.Scenario {
 						if timedOf(c) {
 							d, ctx = time.Second, r.ctx
 						}
-						v := 40 + 10*t + j
+						v := valOf(t, j)
 						switch c[:2] {
 						case "ST":
 							r.sendOK[t][j] = b2i(chans.SendTimeout(r.ch, v, d))
@@ -614,7 +629,7 @@ func multiScenario(progs [][]string, capN, prefill, bound int) schk.Scenario {
 				}
 				lastPre := 0
 				for j, c := range prog {
-					v := 40 + 10*t + j
+					v := valOf(t, j)
 					if c[0] == 'S' {
 						known[v] = true
 						n := count(v)
@@ -840,6 +855,12 @@ func main() {
 					}
 				}
 			}
+		}
+	}
+	for _, pair := range [][2]string{{"ST+", "RT+"}, {"ST-", "RT-"}, {"SC+", "RC+"}, {"SC-", "RT+"}, {"ST+", "RC-"}} {
+		for capN := 0; capN <= 1; capN++ {
+			scs = append(scs, multiScenarioZ([][]string{{pair[0]}, {pair[1]}}, capN, 0, -1, true))
+			scs = append(scs, multiScenarioZ([][]string{{pair[0], pair[0]}, {pair[1], pair[1]}}, capN, 0, ev.Pick(r, 3, -1), true))
 		}
 	}
 	for _, tri := range [][]string{{"ST+", "ST+", "RT+"}, {"SC+", "ST-", "RC+"}, {"RT+", "RC+", "ST+"}, {"RT-", "RT+", "SC+"}, {"ST+", "SC+", "RC-"}} {
